@@ -10,17 +10,29 @@ package integrationdiagram
 //@   requires b.M != nil && t != nil && b.Deps != nil && b.Deps != b.Excludes && b.Deps != b.SeedAppsMap
 //@   assert @call:integrationdiagram.(*IntsBuilder).AddCall [caller-not-excluded-target-is-seed] !in(sourceApp, b.Excludes) && in(targetApp, b.SeedAppsMap) && arg1 == sourceApp && arg2 == epname && arg3 == t
 //@   assert @store:F.integrationdiagram.IntsBuilder.FinalApps [only-unexcluded-callers-join] !in(sourceApp, b.Excludes) && in(targetApp, b.SeedAppsMap)
+//@   ghostset @call:integrationdiagram.(*IntsBuilder).AddCall added
+//@   mark @after:syslutil.HasPattern#1 human
+//@   mark @after:syslutil.HasPattern#2 hidden
+//@   ensures [visible-call-to-seed-recorded] !old(in(sourceApp, b.Excludes)) && old(in(targetApp, b.SeedAppsMap)) && !at("human", callresult) && !at("hidden", callresult) ==> ghost("added")
 
 // A seed application's call is recorded only if the target is not excluded.
 //@ func (*IntsBuilder).ProcessExcludeAndPassthrough
 //@   requires b.M != nil && t != nil && b.Deps != nil && b.Deps != b.Excludes
 //@   assert @call:integrationdiagram.(*IntsBuilder).AddCall [target-not-excluded] !in(targetApp, b.Excludes) && arg1 == sourceApp && arg2 == epname && arg3 == t
 //@   assert @store:F.integrationdiagram.IntsBuilder.FinalApps [only-unexcluded-targets-join] !in(targetApp, b.Excludes)
+//@   ghostset @call:integrationdiagram.(*IntsBuilder).AddCall added
+//@   mark @after:syslutil.HasPattern#1 human
+//@   mark @after:syslutil.HasPattern#2 hidden
+//@   ensures [visible-call-from-seed-recorded] !old(in(targetApp, b.Excludes)) && !at("human", callresult) && !at("hidden", callresult) ==> ghost("added")
 
 // Calls between already selected applications are recorded only if the target is selected.
 //@ func (*IntsBuilder).IndirectCalls
 //@   requires b.M != nil && t != nil && b.Deps != nil
 //@   assert @call:integrationdiagram.(*IntsBuilder).AddCall [target-is-selected] in(targetApp, b.FinalAppsMap) && arg1 == sourceApp && arg2 == epname && arg3 == t
+//@   ghostset @call:integrationdiagram.(*IntsBuilder).AddCall added
+//@   mark @after:syslutil.HasPattern#1 human
+//@   mark @after:syslutil.HasPattern#2 hidden
+//@   ensures [visible-call-among-selected-recorded] old(in(targetApp, b.FinalAppsMap)) && !at("human", callresult) && !at("hidden", callresult) ==> ghost("added")
 
 // The pass-through walk recurses through ProcessCalls / ProcessExcludeAndPassthrough without a measure.
 //@ func (*IntsBuilder).WalkPassthrough
